@@ -406,6 +406,11 @@ class KexGroupExchange(KexDH):
         except struct.error:
             raise KexDHException("Error while parsing modulus and generator during GEX init: %s" % str(traceback.format_exc())) from None
 
+        # The server picks the modulus.  One far larger than anything we asked for would make the exponentiation below run for
+        # minutes or hours (a 262144-bit modulus fits in a single packet), so it is refused like any other malformed answer.
+        if p.bit_length() > max(maxbits, 8192):
+            raise KexDHException('Modulus sent by the server is too large: %u bits (at most %u were requested).' % (p.bit_length(), maxbits))
+
         # Now that we got the generator and modulus, perform the DH exchange
         # like usual.
         super(KexGroupExchange, self).set_params(g, p)
